@@ -1,6 +1,7 @@
 package decorator
 
 import (
+	"strings"
 	"bytes"
 	"errors"
 	"go/format"
@@ -130,6 +131,12 @@ func VerifC20Disk() {
 		df := vfFileWith(specs, []*dst.Ident{{Name: "local" + strconv.Itoa(i)}})
 		df.Decls = append(df.Decls, &dst.GenDecl{Tok: token.VAR, Specs: []dst.Spec{&dst.ValueSpec{Names: []*dst.Ident{{Name: "_"}, {Name: "_"}}, Values: []dst.Expr{
 			&dst.SelectorExpr{X: &dst.Ident{Name: "b"}, Sel: &dst.Ident{Name: "B"}}, &dst.SelectorExpr{X: &dst.Ident{Name: "a"}, Sel: &dst.Ident{Name: "A"}}}}}})
+		if i >= 1 {
+			// a multi-line raw string in a file that is not the first of the FileSet (Save restores all
+			// files of the package with one Restorer)
+			df.Decls = append(df.Decls, &dst.GenDecl{Tok: token.VAR, Specs: []dst.Spec{&dst.ValueSpec{Names: []*dst.Ident{{Name: "_"}},
+				Values: []dst.Expr{&dst.BasicLit{Kind: token.STRING, Value: "`a\nb`"}}}}})
+		}
 		fr := (&Restorer{Map: newMap(), Fset: fset}).FileRestorer()
 		fr.Name = path
 		af, err := fr.RestoreFile(df)
@@ -146,7 +153,12 @@ func VerifC20Disk() {
 		p.Syntax = append(p.Syntax, file)
 		paths = append(paths, path)
 		prints = append(prints, vfPrintOf(i, file, map[string]string{"a": "a", "x.y/b": "b", "c/d": "d"}))
-		vfFSPut(path, "// old contents of this file, much longer than what will be written now ........................................................................................................................\n")
+		if vfChoice("oldsize"+strconv.Itoa(i), 2) == 1 {
+			// old contents of exactly the size of the new print, but different
+			vfFSPut(path, strings.Repeat("#", len(prints[i])))
+		} else {
+			vfFSPut(path, "// old contents of this file, much longer than what will be written now ........................................................................................................................\n")
+		}
 	}
 	calls := 0
 	names = map[string]string{"a": "a", "x.y/b": "b", "c/d": "d"}
@@ -159,4 +171,47 @@ func VerifC20Disk() {
 		vfAssert(got == prints[i], "file-holds-exactly-its-print")
 	}
 	vfAssert(vfFSCount() == nfiles, "nothing-else-written")
+}
+
+// VerifC20SaveDefault: the public Package.Save (default resolver: go/packages in the package's
+// directory) on a package one of whose files refers to a package that cannot be loaded (packages.Load is
+// an environment stub reporting "not found", as the go command does; Package.Imports holds the nameless
+// placeholder that decorator.Load leaves for it): Save returns an error, the files before the failing
+// one hold their print, the failing file and the later ones keep their old contents.
+func VerifC20SaveDefault() {
+	root := vfFSRoot()
+	nfiles := 1 + vfChoice("nfiles", 2)
+	bad := vfChoice("bad", nfiles)
+	d := NewDecorator(token.NewFileSet())
+	missing := &packages.Package{ID: "x.y/missing", PkgPath: "x.y/missing", Errors: []packages.Error{{Msg: "not found"}}}
+	p := &Package{Package: &packages.Package{PkgPath: vfLocal, Imports: map[string]*packages.Package{"x.y/missing": missing}},
+		Decorator: d, Dir: root, Imports: map[string]*Package{"x.y/missing": {Package: missing, Imports: map[string]*Package{}}}}
+	var paths []string
+	for i := 0; i < nfiles; i++ {
+		path := root + "/f" + strconv.Itoa(i) + ".go"
+		id := &dst.Ident{Name: "local" + strconv.Itoa(i)}
+		if i == bad {
+			id = &dst.Ident{Name: "Foo", Path: "x.y/missing"}
+		}
+		df := vfFileWith(nil, []*dst.Ident{id})
+		d.Filenames[df] = path
+		p.Syntax = append(p.Syntax, df)
+		paths = append(paths, path)
+		vfFSPut(path, "// old "+strconv.Itoa(i)+"\n")
+	}
+	err := p.Save()
+	vfReach("saved")
+	vfAssert(err != nil, "unresolvable-import-is-an-error")
+	if err != nil {
+		vfAssert(strings.Contains(err.Error(), "could not resolve package x.y/missing"), "error-names-the-unresolvable-package")
+	}
+	for i, path := range paths {
+		got, ok := vfFSGet(path)
+		vfAssert(ok, "file-exists-at-its-path")
+		if i >= bad {
+			vfAssert(got == "// old "+strconv.Itoa(i)+"\n", "failing-and-later-files-not-rewritten")
+		} else {
+			vfAssert(got != "// old "+strconv.Itoa(i)+"\n", "earlier-files-written")
+		}
+	}
 }
